@@ -87,6 +87,9 @@ func genC18(seed int64, tier string) *Scenario {
 		}
 		fn := "require"
 		lit := strings.ReplaceAll(mod, "/", sep)
+		if sep == "/" && r.Intn(2) == 0 {
+			lit = strings.ReplaceAll(mod, "/", ".") // a dotted string keeps meaning directories whatever the configured separator
+		}
 		if r.Intn(6) == 0 {
 			fn = "dofile"
 			lit = mod + ".lua"
